@@ -569,8 +569,8 @@ pub fn first_difference(a: &str, b: &str) -> String {
     let ac: Vec<char> = a.chars().collect();
     let bc: Vec<char> = b.chars().collect();
     let k = ac.iter().zip(&bc).position(|(x, y)| x != y).unwrap_or(ac.len().min(bc.len()));
-    let lo = k.saturating_sub(60);
-    let sa: String = ac[lo..(k + 80).min(ac.len())].iter().collect();
-    let sb: String = bc[lo..(k + 80).min(bc.len())].iter().collect();
+    let lo = k.saturating_sub(28);
+    let sa: String = ac[lo..(k + 44).min(ac.len())].iter().collect();
+    let sb: String = bc[lo..(k + 44).min(bc.len())].iter().collect();
     format!("expected …{sa}… | crate …{sb}…")
 }
